@@ -1,6 +1,7 @@
 package main
 
 import (
+	"go/types"
 	"fmt"
 	"strings"
 
@@ -115,6 +116,27 @@ func checkMemoDiscipline(p *Program, r *Report, rule string) {
 				fresh = true // &nameSpace{…} created in this function
 			}
 			r.Check(fresh, rule, short+"#replaces-escaper", p.Pos(st.Pos()), "the escaper is installed on a name space created in the same function", "the escaper of a published name space is replaced: the record of already analysed (and rewritten) templates is lost, so they are analysed and rewritten again — possibly while other goroutines execute them")
+		}
+		// (1b) … nor overwritten as a whole through a pointer (*e = fresh)
+		for _, b := range f.Blocks {
+			for _, in := range b.Instrs {
+				st, ok := in.(*ssa.Store)
+				if !ok {
+					continue
+				}
+				pt, ok := st.Addr.Type().Underlying().(*types.Pointer)
+				if !ok || !isNamed(pt.Elem(), pkgTemplate, "escaper") {
+					continue
+				}
+				if al, isAl := st.Addr.(*ssa.Alloc); isAl && (!al.Heap || isFreshBase(al, 0)) {
+					continue // a local escaper being set up
+				}
+				if isFreshBase(st.Addr, 0) {
+					continue
+				}
+				n++
+				r.Viol(rule, short+"#overwrites-escaper", p.Pos(st.Pos()), "a live escaper is overwritten as a whole: the record of already analysed (and rewritten) templates and the derived copies are lost, so helpers reached only through template calls are analysed and rewritten a second time", "execute a page that calls a helper; execute a template that fails; execute another page that calls the helper")
+			}
 		}
 		// (2) the memo maps are never replaced or shrunk
 		for _, field := range []string{"output", "derived"} {
